@@ -200,120 +200,175 @@ def tryNewFn (name : Str) (args : List FnArg) : R TestFunction :=
   else if std.contains name then err
   else pure (.custom name args)
 
+/-- `iter().map(f).collect::<Result<Vec<_>,_>>()` / a `for` loop with `?`: stops at the first error -/
+def mapR {α β} (f : α → R β) : List α → R (List β)
+  | [] => .ok []
+  | x :: xs => match f x with
+    | .ok y => (match mapR f xs with | .ok ys => .ok (y :: ys) | .error e => .error e)
+    | .error e => .error e
+
+def isRule (id : RuleId) (p : PairT) : Bool := decide (p.rule = id)
+
+/-! The builder over the pair tree (`parser.rs`).  Recursion follows the nesting of the pair tree; it is written with fuel so that
+it is a total, kernel-reducible function about which theorems can be stated for EVERY pair tree (`Theorems/C07.lean`). -/
 mutual
-partial def segmentsB (inp : Inp) (rule : PairT) : R (List Segment) :=
-  rule.inner.mapM fun r => do segmentB inp (← firstInner r)
+def segmentsB : Nat → Inp → PairT → R (List Segment)
+  | 0, _, _ => err
+  | fuel+1, inp, rule => mapR (fun r => match firstInner r with | .ok c => segmentB fuel inp c | .error e => .error e) rule.inner
 
-partial def childSegmentB (inp : Inp) (rule : PairT) : R Segment :=
-  match rule.rule with
-  | .r_wildcard_selector => pure (.selector .wildcard)
-  | .r_member_name_shorthand => pure (.selector (.name (trimBlank (rule.str inp))))
-  | .r_bracketed_selection => do
-      let sels ← rule.inner.mapM (selectorB inp)
-      match sels with
-      | [s] => pure (.selector s)
-      | ss => pure (.selectors ss)
-  | _ => err
+def childSegmentB : Nat → Inp → PairT → R Segment
+  | 0, _, _ => err
+  | fuel+1, inp, rule =>
+    match rule.rule with
+    | .r_wildcard_selector => pure (.selector .wildcard)
+    | .r_member_name_shorthand => pure (.selector (.name (trimBlank (rule.str inp))))
+    | .r_bracketed_selection =>
+        match mapR (selectorB fuel inp) rule.inner with
+        | .ok [s] => pure (.selector s)
+        | .ok ss => pure (.selectors ss)
+        | .error e => .error e
+    | _ => err
 
-partial def segmentB (inp : Inp) (child : PairT) : R Segment :=
-  match child.rule with
-  | .r_child_segment =>
-      let s := child.str inp
-      let val := match s with | '.' :: r => r | _ => []
-      if (match val with | c :: _ => isBlank c | [] => false) then err else do childSegmentB inp (← firstInner child)
-  | .r_descendant_segment =>
-      match (child.str inp)[2]? with
-      | none => err
-      | some c => if isBlank c then err else do
-          pure (.descendant (← childSegmentB inp (← firstInner child)))
-  | _ => err
+def segmentB : Nat → Inp → PairT → R Segment
+  | 0, _, _ => err
+  | fuel+1, inp, child =>
+    match child.rule with
+    | .r_child_segment =>
+        let s := child.str inp
+        let val := match s with | '.' :: r => r | _ => []
+        if (match val with | c :: _ => isBlank c | [] => false) then err else
+          match firstInner child with | .ok c => childSegmentB fuel inp c | .error e => .error e
+    | .r_descendant_segment =>
+        match (child.str inp)[2]? with
+        | none => err
+        | some c => if isBlank c then err else
+            match firstInner child with
+            | .ok c' => (match childSegmentB fuel inp c' with | .ok sg => pure (.descendant sg) | .error e => .error e)
+            | .error e => .error e
+    | _ => err
 
-partial def selectorB (inp : Inp) (rule : PairT) : R Selector := do
-  let child ← firstInner rule
-  match child.rule with
-  | .r_name_selector => do let s ← validateJsStr (trim (child.str inp)); pure (.name s)
-  | .r_wildcard_selector => pure .wildcard
-  | .r_index_selector => do let v ← getInt inp child; let v ← validateRange v; pure (.index v)
-  | .r_slice_selector => do let (a, b, c) ← sliceB inp child; pure (.slice a b c)
-  | .r_filter_selector => do pure (.filter (← logicalExprB inp (← firstInner child)))
-  | _ => err
-
-partial def functionExprB (inp : Inp) (rule : PairT) : R TestFunction := do
-  let fnStr := rule.str inp
-  match rule.inner with
-  | [] => err
-  | nameP :: elems =>
-    let name := nameP.str inp
-    let bad := match fnStr[name.length]? with | some c => c != '(' | none => false
-    if bad then err else do
-      let args ← elems.mapM fun arg => do
-        let next ← firstInner arg
-        match next.rule with
-        | .r_literal => do pure (FnArg.lit (← literalB inp next))
-        | .r_test => do pure (FnArg.test (← testB inp next))
-        | .r_logical_expr => do pure (FnArg.filter (← logicalExprB inp next))
-        | _ => err
-      tryNewFn name args
-
-partial def testB (inp : Inp) (rule : PairT) : R Test := do
-  let child ← firstInner rule
-  match child.rule with
-  | .r_jp_query => do pure (.abs (← segmentsB inp (← firstInner child)))
-  | .r_rel_query => do pure (.rel (← segmentsB inp (← firstInner child)))
-  | .r_function_expr => do pure (.fn (← functionExprB inp child))
-  | _ => err
-
-partial def logicalExprB (inp : Inp) (rule : PairT) : R Filter := do
-  let ors ← rule.inner.mapM (logicalExprAndB inp)
-  match ors with
-  | [f] => pure f
-  | fs => pure (.or fs)
-
-partial def logicalExprAndB (inp : Inp) (rule : PairT) : R Filter := do
-  let ands ← rule.inner.mapM fun r => do pure (Filter.atom (← filterAtomB inp r))
-  match ands with
-  | [f] => pure f
-  | fs => pure (.and fs)
-
-partial def filterAtomB (inp : Inp) (pair : PairT) : R FilterAtom := do
-  let rule ← firstInner pair
-  match rule.rule with
-  | .r_paren_expr => do
-      let (n, e) ← rule.inner.foldlM (init := (false, (none : Option Filter))) fun (n, e) r =>
-        match r.rule with
-        | .r_not_op => pure (true, e)
-        | .r_logical_expr => do pure (n, some (← logicalExprB inp r))
-        | _ => pure (n, e)
-      match e with | some e => pure (.filter e n) | none => err
-  | .r_comp_expr =>
-      match rule.inner with
-      | l :: o :: r :: _ => do
-          let lhs ← comparableB inp l
-          let rhs ← comparableB inp r
-          let op ← cmpOpOf (o.str inp)
-          pure (.cmp op lhs rhs)
+def selectorB : Nat → Inp → PairT → R Selector
+  | 0, _, _ => err
+  | fuel+1, inp, rule =>
+    match firstInner rule with
+    | .error e => .error e
+    | .ok child =>
+      match child.rule with
+      | .r_name_selector => (match validateJsStr (trim (child.str inp)) with | .ok s => pure (.name s) | .error e => .error e)
+      | .r_wildcard_selector => pure .wildcard
+      | .r_index_selector => (match getInt inp child with
+          | .ok v => (match validateRange v with | .ok v => pure (.index v) | .error e => .error e)
+          | .error e => .error e)
+      | .r_slice_selector => (match sliceB inp child with | .ok (a, b, c) => pure (.slice a b c) | .error e => .error e)
+      | .r_filter_selector => (match firstInner child with
+          | .ok le => (match logicalExprB fuel inp le with | .ok f => pure (.filter f) | .error e => .error e)
+          | .error e => .error e)
       | _ => err
-  | .r_test_expr => do
-      let (n, e) ← rule.inner.foldlM (init := (false, (none : Option Test))) fun (n, e) r =>
-        match r.rule with
-        | .r_not_op => pure (true, e)
-        | .r_test => do pure (n, some (← testB inp r))
-        | _ => pure (n, e)
-      match e with
-      | some (.fn tf) => if tf.isComparable then err else pure (.test (.fn tf) n)
-      | some e => pure (.test e n)
-      | none => err
-  | _ => err
 
-partial def comparableB (inp : Inp) (rule : PairT) : R Comparable := do
-  let rule ← firstInner rule
-  match rule.rule with
-  | .r_literal => do pure (.lit (← literalB inp rule))
-  | .r_singular_query => singularB inp rule
-  | .r_function_expr => do
-      let tf ← functionExprB inp rule
-      if tf.isComparable then pure (.fn tf) else err
-  | _ => err
+def fnArgB : Nat → Inp → PairT → R FnArg
+  | 0, _, _ => err
+  | fuel+1, inp, arg =>
+    match firstInner arg with
+    | .error e => .error e
+    | .ok next =>
+      match next.rule with
+      | .r_literal => (match literalB inp next with | .ok l => pure (.lit l) | .error e => .error e)
+      | .r_test => (match testB fuel inp next with | .ok t => pure (.test t) | .error e => .error e)
+      | .r_logical_expr => (match logicalExprB fuel inp next with | .ok f => pure (.filter f) | .error e => .error e)
+      | _ => err
+
+def functionExprB : Nat → Inp → PairT → R TestFunction
+  | 0, _, _ => err
+  | fuel+1, inp, rule =>
+    let fnStr := rule.str inp
+    match rule.inner with
+    | [] => err
+    | nameP :: elems =>
+      let name := nameP.str inp
+      let bad := match fnStr[name.length]? with | some c => c != '(' | none => false
+      if bad then err else
+        match mapR (fnArgB fuel inp) elems with
+        | .ok args => tryNewFn name args
+        | .error e => .error e
+
+def testB : Nat → Inp → PairT → R Test
+  | 0, _, _ => err
+  | fuel+1, inp, rule =>
+    match firstInner rule with
+    | .error e => .error e
+    | .ok child =>
+      match child.rule with
+      | .r_jp_query => (match firstInner child with
+          | .ok c => (match segmentsB fuel inp c with | .ok ss => pure (.abs ss) | .error e => .error e)
+          | .error e => .error e)
+      | .r_rel_query => (match firstInner child with
+          | .ok c => (match segmentsB fuel inp c with | .ok ss => pure (.rel ss) | .error e => .error e)
+          | .error e => .error e)
+      | .r_function_expr => (match functionExprB fuel inp child with | .ok f => pure (.fn f) | .error e => .error e)
+      | _ => err
+
+def logicalExprB : Nat → Inp → PairT → R Filter
+  | 0, _, _ => err
+  | fuel+1, inp, rule =>
+    match mapR (logicalExprAndB fuel inp) rule.inner with
+    | .ok [f] => pure f
+    | .ok fs => pure (.or fs)
+    | .error e => .error e
+
+def logicalExprAndB : Nat → Inp → PairT → R Filter
+  | 0, _, _ => err
+  | fuel+1, inp, rule =>
+    match mapR (fun r => match filterAtomB fuel inp r with | .ok a => .ok (Filter.atom a) | .error e => .error e) rule.inner with
+    | .ok [f] => pure f
+    | .ok fs => pure (.and fs)
+    | .error e => .error e
+
+def filterAtomB : Nat → Inp → PairT → R FilterAtom
+  | 0, _, _ => err
+  | fuel+1, inp, pair =>
+    match firstInner pair with
+    | .error e => .error e
+    | .ok rule =>
+      match rule.rule with
+      | .r_paren_expr =>
+          -- `for r in inner { not_op => not = true, logical_expr => expr = Some(parse?) }`
+          let n := rule.inner.any (isRule .r_not_op)
+          (match mapR (logicalExprB fuel inp) (rule.inner.filter (isRule .r_logical_expr)) with
+           | .ok es => (match es.getLast? with | some e => pure (.filter e n) | none => err)
+           | .error e => .error e)
+      | .r_comp_expr =>
+          (match rule.inner with
+           | l :: o :: r :: _ =>
+             (match comparableB fuel inp l with
+              | .ok lhs => (match comparableB fuel inp r with
+                | .ok rhs => (match cmpOpOf (o.str inp) with | .ok op => pure (.cmp op lhs rhs) | .error e => .error e)
+                | .error e => .error e)
+              | .error e => .error e)
+           | _ => err)
+      | .r_test_expr =>
+          let n := rule.inner.any (isRule .r_not_op)
+          (match mapR (testB fuel inp) (rule.inner.filter (isRule .r_test)) with
+           | .ok ts => (match ts.getLast? with
+              | some (.fn tf) => if tf.isComparable then err else pure (.test (.fn tf) n)
+              | some e => pure (.test e n)
+              | none => err)
+           | .error e => .error e)
+      | _ => err
+
+def comparableB : Nat → Inp → PairT → R Comparable
+  | 0, _, _ => err
+  | fuel+1, inp, rule0 =>
+    match firstInner rule0 with
+    | .error e => .error e
+    | .ok rule =>
+      match rule.rule with
+      | .r_literal => (match literalB inp rule with | .ok l => pure (.lit l) | .error e => .error e)
+      | .r_singular_query => singularB inp rule
+      | .r_function_expr =>
+          (match functionExprB fuel inp rule with
+           | .ok tf => if tf.isComparable then pure (.fn tf) else err
+           | .error e => .error e)
+      | _ => err
 end
 
 def parseJsonPath (s : Str) : R (List Segment) :=
@@ -324,7 +379,7 @@ def parseJsonPath (s : Str) : R (List Segment) :=
   | some st => match st.out with
     | m :: _ => do
       let jq ← firstInner m
-      segmentsB inp (← firstInner jq)
+      segmentsB (8 * (s.length + 2)) inp (← firstInner jq)
     | [] => err
   | none => err
 
